@@ -536,11 +536,16 @@ func main() {
 	tick("garbage")
 	// unknown compressor types
 	for _, t := range []int{0, 5, -1, 6, 255, 1 << 20} {
-		x := rng.Bytes(rng.Intn(20))
-		we, wd := wrapEnc(t, x), wrapDec(t, x)
-		run.Add(common.App("CUnknown", common.Z(int64(t)), common.ByteList(x), we.coq(), wd.coq()),
-			map[string]interface{}{"kind": "unknown-type", "type": t, "compress": we.human(), "decompress": wd.human()}, true)
-		run.Hist("unknown_type")
+		// the bytes handed to Decompress are valid output of each real codec in turn, so that
+		// a wrapper falling back to some codec for an unknown type is caught
+		for valid := 1; valid <= 4; valid++ {
+			x := rng.Bytes(1 + rng.Intn(20))
+			y := libEnc(valid, x).data
+			we, wd := wrapEnc(t, x), wrapDec(t, y)
+			run.Add(common.App("CUnknown", common.Z(int64(t)), common.ByteList(y), we.coq(), wd.coq()),
+				map[string]interface{}{"kind": "unknown-type", "type": t, "decompress_input": "valid " + algName[valid], "compress": we.human(), "decompress": wd.human()}, true)
+			run.Hist("unknown_type")
+		}
 	}
 	// large payloads: compared here, not in Coq
 	sizes := []int{65536, 1 << 20}
